@@ -13,7 +13,7 @@ for seed in "$@"; do
   echo "repo commit: $(git -C /repo rev-parse --short HEAD)" >> $out
   (cd $seed && SOFTHSM_SRC=$W bash ./run.sh $W/_build > $W/demo0.log 2>&1); d0=$?
   echo "demo on unchanged tree: exit $d0" | tee -a $out
-  if ! git -C $W apply $seed/patch.diff; then echo "PATCH DOES NOT APPLY" | tee -a $out; continue; fi
+  if ! git -C $W apply $seed/patch.diff 2>/dev/null && ! git -C $W apply -C1 $seed/patch.diff; then echo "PATCH DOES NOT APPLY" | tee -a $out; continue; fi
   python3 /verif/tools/run_baseline.py $W/_build > $W/suite.log 2>&1; s=$?
   echo "suite with change: exit $s: $(head -1 $W/suite.log)" | tee -a $out
   (cd $seed && SOFTHSM_SRC=$W bash ./run.sh $W/_build > $W/demo1.log 2>&1); d1=$?
